@@ -1,6 +1,6 @@
 (* The fixed application handler used by the session engine (mirrors harness/src/session.rs : raw_handler).
    It is one instance of the `handler` parameter of the Cli model; the theorems quantify over all handlers. *)
-From EC Require Import Base Model.Utils Model.Args Model.Writer Spec.ArgSpec.
+From EC Require Import Base Model.Utils Model.Args Model.Writer Model.Cli Spec.ArgSpec.
 
 Definition PROMPTS : list (list N) :=
   [ []; [36; 32]; [0xCE; 0xBB; 0xE2; 0x86; 0x92; 32]; [97; 98; 99; 62; 32] ].
@@ -47,6 +47,17 @@ Definition do_action (v : list N) : list hop :=
     else []
   end.
 
+(* action `x<text>` of `do`: the processor stops and rejects the command (UnexpectedArgument text) - only a hand-written
+   CommandProcessor can do that after writing; the actions before it have run *)
+Fixpoint do_until_x (vals : list (list N)) : list (list N) * option (list N) :=
+  match vals with
+  | [] => ([], None)
+  | v :: r => match v with
+              | 120 :: t => ([], Some t)
+              | _ => let '(l, o) := do_until_x r in (v :: l, o)
+              end
+  end.
+
 Definition handler_raw (n : nat) (name : list N) (args : list (list N)) : list hop :=
   match args_of args with
   | None => []
@@ -65,7 +76,18 @@ Definition handler_raw (n : nat) (name : list N) (args : list (list N)) : list h
       | _ => []
       end
     else if list_eqb name [113;117;105;101;116] (* quiet *) then []
-    else if list_eqb name [100;111] (* do *) then flat_map do_action vals
+    else if list_eqb name [100;111] (* do *) then flat_map do_action (fst (do_until_x vals))
     else if list_eqb name [101;109;112;116;121] (* empty *) then [HWrite []]
     else HWrite name :: flat_map (fun a => [HWrite [32]; HWrite (arg_repr a)]) items
   end.
+
+(* what the hand-written processor of the harness returns after the handler's output (cs_fail of the Cli model) *)
+Definition raw_fail (name : list N) (args : list (list N)) : option perr :=
+  if list_eqb name [100;111] then
+    match args_of args with
+    | Some items => match snd (do_until_x (values_of items)) with Some t => Some (EUnexpArg t) | None => None end
+    | None => None
+    end
+  else None.
+Definition raw_cmdset_rejecting : cmdset :=
+  {| cs_names := []; cs_list_help := []; cs_cmd_help := fun _ _ => None; cs_parse := fun _ _ => None; cs_fail := fun _ n a => raw_fail n a |}.
